@@ -431,3 +431,498 @@ Section Wavg.
     unfold pairs_within in Hin. rewrite Forall_forall in Hin. specialize (Hin p Hp). lra.
   Qed.
 End Wavg.
+
+(* ====================================================================== *)
+(* 3. series (alg.go) in exact arithmetic                                   *)
+(* ====================================================================== *)
+(* "a zero term is followed only by zero terms" *)
+Definition absorbing (t : nat -> Q) : Prop := forall n, t n == 0 -> t (S n) == 0.
+
+Lemma nat_sum_absorb (t : nat -> Q) : absorbing t ->
+  forall n K, (n <= K)%nat -> t n == 0 -> t K == 0 /\ nat_sum t K == nat_sum t n.
+Proof.
+  intros A n K L Z. induction L as [|K L [IH1 IH2]]; [split; [exact Z|reflexivity]|].
+  split; [apply A, IH1|]. cbn [nat_sum]. rewrite IH2, IH1. ring.
+Qed.
+
+(* series stops at the first zero term; if zero terms are absorbing and one occurs before the
+   fuel runs out, the value is the sum of ALL terms up to any later zero term *)
+Lemma series_q_stop (t : nat -> Q) : absorbing t ->
+  forall fuel n acc K, (n <= K)%nat -> t K == 0 -> (K < n + fuel)%nat ->
+  exists s, series_q t n fuel acc = Some s /\ s + nat_sum t n == acc + nat_sum t K.
+Proof.
+  intros A fuel. induction fuel as [|fuel IH]; intros n acc K L Z F; [lia|].
+  cbn [series_q]. destruct (Qeq_bool (t n) 0) eqn:E.
+  - apply Qeq_bool_iff in E. exists acc. split; [reflexivity|].
+    destruct (nat_sum_absorb t A n K L E) as [_ S]. rewrite S. reflexivity.
+  - apply Qeq_bool_false in E.
+    assert (n <> K) by (intro; subst; contradiction).
+    destruct (IH (S n) (Qred (acc + t n)) K) as [s [S1 S2]]; [lia|exact Z|lia|].
+    exists s. split; [exact S1|]. cbn [nat_sum] in S2. rewrite Qred_correct in S2. lra.
+Qed.
+
+Corollary series_q_value (t : nat -> Q) (fuel K : nat) : absorbing t -> t K == 0 -> (K < fuel)%nat ->
+  exists s, series_q t 0 fuel 0 = Some s /\ forall K', (K <= K')%nat -> s == nat_sum t K'.
+Proof.
+  intros A Z F. destruct (series_q_stop t A fuel 0%nat 0 K) as [s [S1 S2]]; [lia|exact Z|lia|].
+  exists s. split; [exact S1|]. intros K' L.
+  destruct (nat_sum_absorb t A K K' L Z) as [_ E]. rewrite E. cbn [nat_sum] in S2. lra.
+Qed.
+
+(* ====================================================================== *)
+(* 4. the two one-sided series of kde.go are the symmetric image sum        *)
+(* ====================================================================== *)
+Lemma sym_sum_ext (s t : Z -> Q) N : (forall n, s n == t n) -> sym_sum s N == sym_sum t N.
+Proof. intro E. induction N as [|N IH]; cbn [sym_sum]; [apply E|]. rewrite IH, !E. reflexivity. Qed.
+
+Lemma fold_pdf_ext (f g : Q -> Q) m M N x : (forall z, f z == g z) -> fold_pdf f m M N x == fold_pdf g m M N x.
+Proof. intro E. unfold fold_pdf. apply sym_sum_ext. intro n. rewrite !E. reflexivity. Qed.
+Lemma fold_cdf_ext (f g : Q -> Q) m M N x : (forall z, f z == g z) -> fold_cdf f m M N x == fold_cdf g m M N x.
+Proof. intro E. unfold fold_cdf. apply sym_sum_ext. intro n. rewrite !E. reflexivity. Qed.
+
+Lemma inject_Z_neg_S (N : nat) : inject_Z (- Z.of_nat (S N)) == - (Qofnat N + 1).
+Proof. rewrite inject_Z_opp. fold (Qofnat (S N)). rewrite Qofnat_S. reflexivity. Qed.
+
+Section FoldSeries.
+  Variable y : Q -> Q.
+  Hypothesis y_comp : forall s t, s == t -> y s == y t.
+  Variables m M x : Q.
+
+  Lemma pdf_upper_term (n : nat) :
+    pdf_upper y m M x n ==
+    y (x + inject_Z (Z.of_nat n) * period m M) + y (2 * m - x + inject_Z (Z.of_nat n) * period m M).
+  Proof.
+    unfold pdf_upper, img_d, img_w, period, Qofnat. apply Qplus_comp; apply y_comp; ring.
+  Qed.
+  Lemma pdf_lower_term (n : nat) :
+    pdf_lower y m M x n ==
+    y (x + inject_Z (- Z.of_nat (S n)) * period m M) + y (2 * m - x + inject_Z (- Z.of_nat (S n)) * period m M).
+  Proof.
+    unfold pdf_lower, img_d, img_w, period. rewrite Qplus_comm.
+    apply Qplus_comp; apply y_comp; rewrite inject_Z_neg_S; ring.
+  Qed.
+  Lemma cdf_upper_term (n : nat) :
+    cdf_upper y m M x n ==
+    y (x + inject_Z (Z.of_nat n) * period m M) - y (2 * m - x + inject_Z (Z.of_nat n) * period m M).
+  Proof.
+    unfold cdf_upper, img_d, img_w, period, Qofnat, Qminus.
+    apply Qplus_comp; [|apply Qopp_comp]; apply y_comp; ring.
+  Qed.
+  Lemma cdf_lower_term (n : nat) :
+    cdf_lower y m M x n ==
+    y (x + inject_Z (- Z.of_nat (S n)) * period m M) - y (2 * m - x + inject_Z (- Z.of_nat (S n)) * period m M).
+  Proof.
+    unfold cdf_lower, img_d, img_w, period, Qminus.
+    apply Qplus_comp; [|apply Qopp_comp]; apply y_comp; rewrite inject_Z_neg_S; ring.
+  Qed.
+
+  (* partial sums of the two series of KDE.PDF = the symmetric truncation of the image sum *)
+  Lemma fold_pdf_series (N : nat) :
+    nat_sum (pdf_upper y m M x) (S N) + nat_sum (pdf_lower y m M x) N == fold_pdf y m M N x.
+  Proof.
+    unfold fold_pdf. induction N as [|N IH].
+    - cbn [nat_sum sym_sum]. rewrite pdf_upper_term. cbn [Z.of_nat]. ring.
+    - cbn [nat_sum sym_sum] in *. rewrite <- IH, (pdf_upper_term (S N)), (pdf_lower_term N). ring.
+  Qed.
+  Lemma fold_cdf_series (N : nat) :
+    nat_sum (cdf_upper y m M x) (S N) + nat_sum (cdf_lower y m M x) N == fold_cdf y m M N x.
+  Proof.
+    unfold fold_cdf. induction N as [|N IH].
+    - cbn [nat_sum sym_sum]. rewrite cdf_upper_term. cbn [Z.of_nat]. ring.
+    - cbn [nat_sum sym_sum] in *. rewrite <- IH, (cdf_upper_term (S N)), (cdf_lower_term N). ring.
+  Qed.
+End FoldSeries.
+
+(* the image sum of the distribution function: 0 at the lower boundary ... *)
+Theorem fold_cdf_at_min (F : Q -> Q) (m M : Q) (N : nat) :
+  (forall s t, s == t -> F s == F t) -> fold_cdf F m M N m == 0.
+Proof.
+  intro C. unfold fold_cdf. induction N as [|N IH]; cbn [sym_sum].
+  - rewrite (C (2 * m - m + inject_Z 0 * period m M) (m + inject_Z 0 * period m M)) by ring. ring.
+  - rewrite IH.
+    rewrite (C (2 * m - m + inject_Z (Z.of_nat (S N)) * period m M) (m + inject_Z (Z.of_nat (S N)) * period m M)) by ring.
+    rewrite (C (2 * m - m + inject_Z (- Z.of_nat (S N)) * period m M) (m + inject_Z (- Z.of_nat (S N)) * period m M)) by ring.
+    ring.
+Qed.
+
+(* ... and at the upper boundary it telescopes:
+   Σ_{|n|<=N} F(M + n d) - F(M + (n-1) d) = F(M + N d) - F(M - (N+1) d) *)
+Theorem fold_cdf_at_max_telescopes (F : Q -> Q) (m M : Q) (N : nat) :
+  (forall s t, s == t -> F s == F t) ->
+  fold_cdf F m M N M == F (M + Qofnat N * period m M) - F (M - (Qofnat N + 1) * period m M).
+Proof.
+  intro C. unfold fold_cdf. induction N as [|N IH]; cbn [sym_sum].
+  - apply Qplus_comp; [|apply Qopp_comp]; apply C; unfold period, Qofnat; cbn [Z.of_nat]; ring.
+  - rewrite IH.
+    rewrite (C (M + inject_Z (Z.of_nat (S N)) * period m M) (M + Qofnat (S N) * period m M)) by reflexivity.
+    rewrite (C (2 * m - M + inject_Z (Z.of_nat (S N)) * period m M) (M + Qofnat N * period m M))
+      by (fold (Qofnat (S N)); rewrite Qofnat_S; unfold period; ring).
+    rewrite (C (M + inject_Z (- Z.of_nat (S N)) * period m M) (M - (Qofnat N + 1) * period m M))
+      by (rewrite inject_Z_neg_S; ring).
+    rewrite (C (2 * m - M + inject_Z (- Z.of_nat (S N)) * period m M) (M - (Qofnat (S N) + 1) * period m M))
+      by (rewrite inject_Z_neg_S, Qofnat_S; unfold period; ring).
+    ring.
+Qed.
+
+(* hence the folded distribution function is exactly 1 at BoundaryMax once the images have
+   left the support of F (F = 0 left of m - r, F = 1 right of M + r, r <= N d) *)
+Theorem fold_cdf_at_max (F : Q -> Q) (m M r : Q) (N : nat) :
+  (forall s t, s == t -> F s == F t) ->
+  (forall z, z <= m - r -> F z == 0) -> (forall z, M + r <= z -> F z == 1) ->
+  m <= M -> r <= Qofnat N * period m M -> fold_cdf F m M N M == 1.
+Proof.
+  intros C F0 F1 L R. rewrite fold_cdf_at_max_telescopes by exact C.
+  unfold period in *. rewrite F1 by lra. rewrite F0; [ring|].
+  assert (0 <= Qofnat N) by apply Qofnat_nonneg. nra.
+Qed.
+
+(* ====================================================================== *)
+(* 5. compact kernel, data inside [m, M]: `series` loses nothing            *)
+(* ====================================================================== *)
+Lemma sum2_zero (a b : Q) : 0 <= a -> 0 <= b -> (a + b == 0 <-> a == 0 /\ b == 0).
+Proof. intros A B. split; [intro E; split; lra | intros [E1 E2]; lra]. Qed.
+
+Section Images.
+  Variable ps : list (Q * Q).
+  Variables h m M x : Q.
+  Hypothesis h_pos : 0 < h.
+  Hypothesis ps_in : pairs_within m M ps.
+  Hypothesis x_in : m <= x /\ x <= M.
+
+  Let inps : forall p, In p ps -> m <= fst p /\ fst p <= M.
+  Proof. unfold pairs_within in ps_in. rewrite Forall_forall in ps_in. exact ps_in. Qed.
+
+  (* ---------- density ---------- *)
+  Variable y : Q -> Q.
+  Hypothesis y_nonneg : forall z, 0 <= y z.
+  Hypothesis y_comp : forall s t, s == t -> y s == y t.
+  (* y vanishes exactly where no kernel (radius h around a data point) reaches *)
+  Hypothesis y_zero : forall z, y z == 0 <-> forall p, In p ps -> z - fst p <= - h \/ h <= z - fst p.
+
+  Lemma pdf_upper_absorbing : absorbing (pdf_upper y m M x).
+  Proof.
+    intros n. unfold pdf_upper. rewrite !sum2_zero by apply y_nonneg. rewrite !y_zero.
+    intros [Ha Hb].
+    assert (Ec : Qofnat (S n) * img_d m M == Qofnat n * img_d m M + img_d m M) by (rewrite Qofnat_S; ring).
+    assert (Hc : 0 <= Qofnat n * img_d m M).
+    { apply Qmult_le_0_compat; [apply Qofnat_nonneg | unfold img_d; lra]. }
+    set (c := Qofnat n * img_d m M) in *. set (c' := Qofnat (S n) * img_d m M) in *.
+    clearbody c c'. unfold img_d, img_w in *.
+    split; intros p Hp; specialize (Ha p Hp); specialize (Hb p Hp); pose proof (inps p Hp);
+      right; lra.
+  Qed.
+
+  Lemma pdf_lower_absorbing : absorbing (pdf_lower y m M x).
+  Proof.
+    intros n. unfold pdf_lower. rewrite !sum2_zero by apply y_nonneg. rewrite !y_zero.
+    intros [Ha Hb].
+    assert (Ec : (Qofnat (S n) + 1) * img_d m M == (Qofnat n + 1) * img_d m M + img_d m M) by (rewrite Qofnat_S; ring).
+    assert (Hc : 0 <= (Qofnat n + 1) * img_d m M).
+    { apply Qmult_le_0_compat; [pose proof (Qofnat_nonneg n); lra | unfold img_d; lra]. }
+    set (c := (Qofnat n + 1) * img_d m M) in *. set (c' := (Qofnat (S n) + 1) * img_d m M) in *.
+    clearbody c c'. unfold img_d, img_w in *.
+    split; intros p Hp; specialize (Ha p Hp); specialize (Hb p Hp); pose proof (inps p Hp);
+      left; lra.
+  Qed.
+
+  (* an index from which on every image is out of reach of every kernel *)
+  Variable K0 : nat.
+  Hypothesis K0_big : h + img_d m M <= Qofnat K0 * img_d m M.
+
+  Lemma pdf_upper_K0 : pdf_upper y m M x K0 == 0.
+  Proof.
+    unfold pdf_upper. apply sum2_zero; try apply y_nonneg. rewrite !y_zero.
+    set (c := Qofnat K0 * img_d m M) in *. clearbody c. unfold img_d, img_w in *.
+    split; intros p Hp; pose proof (inps p Hp); right; lra.
+  Qed.
+  Lemma pdf_lower_K0 : pdf_lower y m M x K0 == 0.
+  Proof.
+    unfold pdf_lower. apply sum2_zero; try apply y_nonneg. rewrite !y_zero.
+    assert (Ec : (Qofnat K0 + 1) * img_d m M == Qofnat K0 * img_d m M + img_d m M) by ring.
+    set (c := Qofnat K0 * img_d m M) in *. set (c' := (Qofnat K0 + 1) * img_d m M) in *.
+    clearbody c c'. unfold img_d, img_w in *.
+    split; intros p Hp; pose proof (inps p Hp); left; lra.
+  Qed.
+
+  (* KDE.PDF on a doubly bounded support IS the unbounded density folded back at both
+     boundaries: the two truncated series add up to the symmetric image sum of EVERY order
+     N >= K0 (beyond K0 all images are zero: the sum is the full two-sided infinite sum) *)
+  Theorem two_series_pdf_is_fold (fuel : nat) : (K0 < fuel)%nat ->
+    exists v, two_series fuel (pdf_upper y m M x) (pdf_lower y m M x) = Some v /\
+              forall N, (K0 <= N)%nat -> v == fold_pdf y m M N x.
+  Proof.
+    intro F.
+    destruct (series_q_value _ fuel K0 pdf_upper_absorbing pdf_upper_K0 F) as [a [A1 A2]].
+    destruct (series_q_value _ fuel K0 pdf_lower_absorbing pdf_lower_K0 F) as [b [B1 B2]].
+    exists (Qred (a + b)). unfold two_series. rewrite A1, B1. split; [reflexivity|].
+    intros N L. rewrite Qred_correct, (A2 (S N)), (B2 N) by lia.
+    apply fold_pdf_series. exact y_comp.
+  Qed.
+
+  (* ---------- distribution function ---------- *)
+  Variable Y : Q -> Q.
+  Hypothesis Y_comp : forall s t, s == t -> Y s == Y t.
+  (* no mass between b and a exactly when no kernel meets the interval *)
+  Hypothesis Y_flat : forall a b, b <= a ->
+    (Y a - Y b == 0 <-> forall p, In p ps -> a == b \/ a - fst p <= - h \/ h <= b - fst p).
+
+  Lemma cdf_upper_absorbing : absorbing (cdf_upper Y m M x).
+  Proof.
+    intros n. unfold cdf_upper.
+    assert (Ec : Qofnat (S n) * img_d m M == Qofnat n * img_d m M + img_d m M) by (rewrite Qofnat_S; ring).
+    assert (Hc : 0 <= Qofnat n * img_d m M).
+    { apply Qmult_le_0_compat; [apply Qofnat_nonneg | unfold img_d; lra]. }
+    set (c := Qofnat n * img_d m M) in *. set (c' := Qofnat (S n) * img_d m M) in *.
+    clearbody c c'. rewrite !Y_flat by (unfold img_w; lra).
+    intros Ha p Hp. specialize (Ha p Hp). pose proof (inps p Hp). unfold img_d, img_w in *.
+    destruct Ha as [Ha|[Ha|Ha]]; [left; lra | right; right; lra | right; right; lra].
+  Qed.
+
+  Lemma cdf_lower_absorbing : absorbing (cdf_lower Y m M x).
+  Proof.
+    intros n. unfold cdf_lower.
+    assert (Ec : (Qofnat (S n) + 1) * img_d m M == (Qofnat n + 1) * img_d m M + img_d m M) by (rewrite Qofnat_S; ring).
+    assert (Hc : 0 <= (Qofnat n + 1) * img_d m M).
+    { apply Qmult_le_0_compat; [pose proof (Qofnat_nonneg n); lra | unfold img_d; lra]. }
+    set (c := (Qofnat n + 1) * img_d m M) in *. set (c' := (Qofnat (S n) + 1) * img_d m M) in *.
+    clearbody c c'. rewrite !Y_flat by (unfold img_w; lra).
+    intros Ha p Hp. specialize (Ha p Hp). pose proof (inps p Hp). unfold img_d, img_w in *.
+    destruct Ha as [Ha|[Ha|Ha]]; [left; lra | right; left; lra | exfalso; lra].
+  Qed.
+
+  Lemma cdf_upper_K0 : cdf_upper Y m M x K0 == 0.
+  Proof.
+    unfold cdf_upper. set (c := Qofnat K0 * img_d m M) in *. clearbody c.
+    apply Y_flat; [unfold img_w; lra|]. intros p Hp. pose proof (inps p Hp).
+    unfold img_d, img_w in *. right; right; lra.
+  Qed.
+  Lemma cdf_lower_K0 : cdf_lower Y m M x K0 == 0.
+  Proof.
+    unfold cdf_lower.
+    assert (Ec : (Qofnat K0 + 1) * img_d m M == Qofnat K0 * img_d m M + img_d m M) by ring.
+    set (c := Qofnat K0 * img_d m M) in *. set (c' := (Qofnat K0 + 1) * img_d m M) in *.
+    clearbody c c'.
+    apply Y_flat; [unfold img_w; lra|]. intros p Hp. pose proof (inps p Hp).
+    unfold img_d, img_w in *. right; left; lra.
+  Qed.
+
+  Theorem two_series_cdf_is_fold (fuel : nat) : (K0 < fuel)%nat ->
+    exists v, two_series fuel (cdf_upper Y m M x) (cdf_lower Y m M x) = Some v /\
+              forall N, (K0 <= N)%nat -> v == fold_cdf Y m M N x.
+  Proof.
+    intro F.
+    destruct (series_q_value _ fuel K0 cdf_upper_absorbing cdf_upper_K0 F) as [a [A1 A2]].
+    destruct (series_q_value _ fuel K0 cdf_lower_absorbing cdf_lower_K0 F) as [b [B1 B2]].
+    exists (Qred (a + b)). unfold two_series. rewrite A1, B1. split; [reflexivity|].
+    intros N L. rewrite Qred_correct, (A2 (S N)), (B2 N) by lia.
+    apply fold_cdf_series. exact Y_comp.
+  Qed.
+End Images.
+
+(* THE FUEL ARGUMENT: the number of images the model allots is enough *)
+Lemma img_fuel_enough (r m M : Q) : 0 <= r -> m < M ->
+  let K0 := (img_fuel r m M - 3)%nat in
+  (K0 < img_fuel r m M)%nat /\ r + img_d m M <= Qofnat K0 * img_d m M.
+Proof.
+  intros Hr Hm. unfold img_fuel.
+  assert (B : Qle_bool M m = false) by (apply Qle_bool_false; exact Hm). rewrite B.
+  assert (Hd : 0 < img_d m M) by (unfold img_d; lra).
+  set (c := Qceiling (r / img_d m M)).
+  assert (Hc : r / img_d m M <= inject_Z c) by apply Qle_ceiling.
+  assert (H0 : 0 <= r / img_d m M) by (apply Qle_shift_div_l; lra).
+  assert (Hz : (0 <= c)%Z) by (rewrite Zle_Qle; change (inject_Z 0) with 0; lra).
+  cbv zeta. split; [lia|].
+  replace (Z.to_nat c + 4 - 3)%nat with (S (Z.to_nat c)) by lia.
+  rewrite Qofnat_S. unfold Qofnat. rewrite Z2Nat.id by exact Hz.
+  assert (r <= inject_Z c * img_d m M); [|lra].
+  apply Qle_shift_div_r in Hc; [exact Hc | exact Hd] || idtac.
+  setoid_replace r with (r / img_d m M * img_d m M) by (field; lra).
+  apply Qmult_le_compat_r; lra.
+Qed.
+
+(* ====================================================================== *)
+(* 6. the Epanechnikov estimate: weighted average of kernels                *)
+(* ====================================================================== *)
+Lemma Qsum_minus {A} (s t : A -> Q) (l : list A) :
+  Qsum (map s l) - Qsum (map t l) == Qsum (map (fun p => s p - t p) l).
+Proof. induction l as [|p l IH]; cbn [map Qsum]; [ring|]. rewrite <- IH. ring. Qed.
+
+Lemma wavg_diff_zero_iff ps (g : Q -> Q) a b : pairs_ok ps ->
+  (forall s t, s <= t -> g s <= g t) -> b <= a ->
+  (wavg g ps a - wavg g ps b == 0 <-> forall p, In p ps -> g (a - fst p) == g (b - fst p)).
+Proof.
+  intros ok G L. pose proof (wtotal_pos ps ok) as W.
+  assert (pos : forall p, In p ps -> 0 < snd p).
+  { destruct ok as [_ F]. rewrite Forall_forall in F. exact F. }
+  assert (E : wavg g ps a - wavg g ps b ==
+              Qsum (map (fun p => snd p * (g (a - fst p) - g (b - fst p))) ps) / wtotal ps).
+  { unfold wavg.
+    setoid_replace (Qsum (map (fun p => snd p * (g (a - fst p) - g (b - fst p))) ps))
+      with (Qsum (map (fun p => snd p * g (a - fst p)) ps) - Qsum (map (fun p => snd p * g (b - fst p)) ps)).
+    - field. lra.
+    - rewrite Qsum_minus. apply Qsum_ext. intros p _. ring. }
+  assert (NN : forall p, In p ps -> 0 <= snd p * (g (a - fst p) - g (b - fst p))).
+  { intros p Hp. pose proof (pos p Hp). pose proof (G (b - fst p) (a - fst p)). nra. }
+  rewrite E. split.
+  - intros Z p Hp.
+    assert (S0 : Qsum (map (fun p => snd p * (g (a - fst p) - g (b - fst p))) ps) == 0).
+    { setoid_replace (Qsum (map (fun p => snd p * (g (a - fst p) - g (b - fst p))) ps))
+        with (Qsum (map (fun p => snd p * (g (a - fst p) - g (b - fst p))) ps) / wtotal ps * wtotal ps)
+        by (field; lra).
+      rewrite Z. ring. }
+    pose proof (Qsum_zero_inv _ ps NN S0 p Hp) as T. pose proof (pos p Hp).
+    apply Qmult_integral in T. destruct T; lra.
+  - intro Z.
+    assert (S0 : Qsum (map (fun p => snd p * (g (a - fst p) - g (b - fst p))) ps) == 0).
+    { rewrite (Qsum_ext _ (fun _ => 0)).
+      - clear. induction ps as [|p l IH]; cbn [map Qsum]; [reflexivity | rewrite IH; ring].
+      - intros p Hp. rewrite (Z p Hp). ring. }
+    rewrite S0. field. lra.
+Qed.
+
+(* strict monotonicity of the Epanechnikov distribution function on its support *)
+Lemma epan_poly_strict (u v : Q) : -1 <= u -> u < v -> v <= 1 ->
+  (1 # 4) * (2 + 3 * u - u * u * u) < (1 # 4) * (2 + 3 * v - v * v * v).
+Proof.
+  intros A B C.
+  assert (E : (1 # 4) * (2 + 3 * v - v * v * v) - (1 # 4) * (2 + 3 * u - u * u * u)
+              == (1 # 4) * ((v - u) * ((3 # 2) * ((1 - u * u) + (1 - v * v)) + (1 # 2) * ((u - v) * (u - v))))) by ring.
+  assert (0 < (v - u) * ((3 # 2) * ((1 - u * u) + (1 - v * v)) + (1 # 2) * ((u - v) * (u - v)))); [| lra].
+  apply Qmult_lt_0_compat; [lra|].
+  assert (0 <= 1 - u * u) by nra. assert (0 <= 1 - v * v) by nra.
+  assert (0 < (u - v) * (u - v)) by nra. lra.
+Qed.
+
+Lemma epan_cdf_strict (h a b : Q) : 0 < h -> - h <= a -> a < b -> b <= h -> epan_cdf h a < epan_cdf h b.
+Proof.
+  intros Hh A B C.
+  assert (P : forall x, - h <= x -> x <= h ->
+     epan_cdf h x == (1 # 4) * (2 + 3 * (x / h) - (x / h) * (x / h) * (x / h)) /\ -1 <= x / h /\ x / h <= 1).
+  { intros x X1 X2. split; [|split].
+    - destruct (Qlt_le_dec (- h) x) as [L|L]; [apply epan_cdf_mid; assumption|].
+      assert (E : x == - h) by lra. rewrite (epan_cdf_comp h x (- h) E), epan_cdf_left by lra.
+      rewrite E. field. lra.
+    - apply Qle_shift_div_l; lra.
+    - apply Qle_shift_div_r; lra. }
+  destruct (P a) as (Ea & A1 & A2); try lra. destruct (P b) as (Eb & B1 & B2); try lra.
+  rewrite Ea, Eb. apply epan_poly_strict; try lra.
+  apply Qlt_shift_div_l; [lra|]. setoid_replace (a / h * h) with a by (field; lra). exact B.
+Qed.
+
+Lemma epan_cdf_flat (h s t : Q) : 0 < h -> s <= t ->
+  (epan_cdf h t == epan_cdf h s <-> t == s \/ t <= - h \/ h <= s).
+Proof.
+  intros Hh L. split.
+  - intro E.
+    destruct (Qlt_le_dec (- h) t) as [T|T]; [|right; left; exact T].
+    destruct (Qlt_le_dec s h) as [S|S]; [|right; right; exact S].
+    destruct (Qeq_dec t s) as [Q|NQ]; [left; exact Q|]. exfalso.
+    assert (Lt : s < t) by (destruct (Qlt_le_dec s t); auto; exfalso; apply NQ; lra).
+    set (s' := if Qlt_le_dec s (- h) then - h else s).
+    set (t' := if Qlt_le_dec h t then h else t).
+    assert (S1 : s <= s' /\ - h <= s' /\ s' < h) by (unfold s'; destruct (Qlt_le_dec s (- h)); lra).
+    assert (T1 : t' <= t /\ t' <= h /\ - h < t') by (unfold t'; destruct (Qlt_le_dec h t); lra).
+    assert (ST : s' < t') by (unfold s', t'; destruct (Qlt_le_dec s (- h)), (Qlt_le_dec h t); lra).
+    pose proof (epan_cdf_mono h s s' Hh (proj1 S1)).
+    pose proof (epan_cdf_mono h t' t Hh (proj1 T1)).
+    pose proof (epan_cdf_strict h s' t' Hh). lra.
+  - intros [E|[E|E]].
+    + apply epan_cdf_comp; exact E.
+    + rewrite (epan_cdf_left h t), (epan_cdf_left h s) by lra. reflexivity.
+    + rewrite (epan_cdf_right h t), (epan_cdf_right h s) by lra. reflexivity.
+Qed.
+
+Definition kde_ok (k : kde) : Prop :=
+  k_xs k <> [] /\ ws_wf (k_xs k) (k_ws k) /\ ws_pos (k_ws k) /\ 0 < k_h k.
+(* the (value, weight) pairs of the sample *)
+Definition kde_ps (k : kde) : list (Q * Q) := kpairs (k_xs k) (k_ws k).
+(* the unbounded Epanechnikov estimate of Spec/Kde.v: density and distribution function *)
+Definition kde_f (k : kde) : Q -> Q := wavg (epan_pdf (k_h k)) (kde_ps k).
+Definition kde_F (k : kde) : Q -> Q := wavg (epan_cdf (k_h k)) (kde_ps k).
+
+Lemma kde_ps_ok k : kde_ok k -> pairs_ok (kde_ps k).
+Proof. intros (A & B & C & _). apply kpairs_ok; assumption. Qed.
+
+Lemma kde_pdf_epan k x : kde_ok k -> k_kernel k = KEpan ->
+  kde_pdf k x = option_map XFin (reflect_pdf (mix (epan_pdf (k_h k)) (k_xs k) (k_ws k)) (k_fuel k) (k_b k) x).
+Proof.
+  intros (A & _ & _ & H) E. unfold kde_pdf. rewrite E.
+  destruct (k_xs k) as [|x0 xs] eqn:X; [congruence|].
+  assert (B : Qle_bool (k_h k) 0 = false) by (apply Qle_bool_false; exact H). rewrite B. reflexivity.
+Qed.
+Lemma kde_cdf_epan k x : kde_ok k -> k_kernel k = KEpan ->
+  kde_cdf k x = option_map XFin (reflect_cdf (mix (epan_cdf (k_h k)) (k_xs k) (k_ws k)) (k_fuel k) (k_b k) x).
+Proof.
+  intros (A & _ & _ & H) E. unfold kde_cdf. rewrite E.
+  destruct (k_xs k) as [|x0 xs] eqn:X; [congruence|].
+  assert (B : Qle_bool (k_h k) 0 = false) by (apply Qle_bool_false; exact H). rewrite B. reflexivity.
+Qed.
+
+Section EpanEstimate.
+  Variable k : kde.
+  Hypothesis ok : kde_ok k.
+
+  Let h := k_h k.
+  Let h_pos : 0 < h. Proof. apply ok. Qed.
+  Let wf : ws_wf (k_xs k) (k_ws k). Proof. apply ok. Qed.
+  Let pok : pairs_ok (kde_ps k) := kde_ps_ok k ok.
+
+  Lemma y_is_f z : mix (epan_pdf (k_h k)) (k_xs k) (k_ws k) z == kde_f k z.
+  Proof. apply mix_is_wavg, wf. Qed.
+  Lemma Y_is_F z : mix (epan_cdf (k_h k)) (k_xs k) (k_ws k) z == kde_F k z.
+  Proof. apply mix_is_wavg, wf. Qed.
+
+  Lemma kde_f_nonneg z : 0 <= kde_f k z.
+  Proof. apply wavg_nonneg; [exact pok | intro t; apply epan_pdf_nonneg, h_pos]. Qed.
+  Lemma kde_f_comp s t : s == t -> kde_f k s == kde_f k t.
+  Proof. apply wavg_comp. intros a b. apply epan_pdf_comp. Qed.
+  Lemma kde_F_comp s t : s == t -> kde_F k s == kde_F k t.
+  Proof. apply wavg_comp. intros a b. apply epan_cdf_comp. Qed.
+  Lemma kde_F_mono a b : a <= b -> kde_F k a <= kde_F k b.
+  Proof. apply wavg_mono; [exact pok | intros s t; apply epan_cdf_mono, h_pos]. Qed.
+  Lemma kde_F_range z : 0 <= kde_F k z /\ kde_F k z <= 1.
+  Proof.
+    split.
+    - apply wavg_nonneg; [exact pok | intro t; apply epan_cdf_range, h_pos].
+    - rewrite <- (wavg_const (kde_ps k) pok (fun _ => 1) z 1) by (intros; reflexivity).
+      apply wavg_le; [exact pok|]. intros p _. apply epan_cdf_range, h_pos.
+  Qed.
+  (* the density vanishes exactly where no kernel reaches *)
+  Lemma kde_f_zero z :
+    kde_f k z == 0 <-> forall p, In p (kde_ps k) -> z - fst p <= - h \/ h <= z - fst p.
+  Proof.
+    unfold kde_f. rewrite (wavg_zero_iff _ pok) by (intro t; apply epan_pdf_nonneg, h_pos).
+    split; intros H p Hp; apply (epan_pdf_zero_iff h _ h_pos), H, Hp.
+  Qed.
+  Lemma kde_F_flat a b : b <= a ->
+    (kde_F k a - kde_F k b == 0 <->
+     forall p, In p (kde_ps k) -> a == b \/ a - fst p <= - h \/ h <= b - fst p).
+  Proof.
+    intro L. unfold kde_F.
+    rewrite (wavg_diff_zero_iff _ _ a b pok) by (auto; intros s t; apply epan_cdf_mono, h_pos).
+    split; intros H p Hp; specialize (H p Hp).
+    - apply (epan_cdf_flat h (b - fst p) (a - fst p) h_pos) in H; [|lra].
+      destruct H as [H|[H|H]]; [left; lra | right; left; exact H | right; right; exact H].
+    - apply (epan_cdf_flat h (b - fst p) (a - fst p) h_pos); [lra|].
+      destruct H as [H|[H|H]]; [left; lra | right; left; exact H | right; right; exact H].
+  Qed.
+  (* compact support: exactly 0 left of (min - h), exactly 1 right of (max + h) *)
+  Lemma kde_F_left lo hi z : pairs_within lo hi (kde_ps k) -> z <= lo - h -> kde_F k z == 0.
+  Proof.
+    intros Hin Hz. apply (wavg_zero_left _ pok _ h lo hi); auto.
+    intros t Ht. rewrite epan_cdf_left by (fold h; lra). reflexivity.
+  Qed.
+  Lemma kde_F_right lo hi z : pairs_within lo hi (kde_ps k) -> hi + h <= z -> kde_F k z == 1.
+  Proof.
+    intros Hin Hz. apply (wavg_one_right _ pok _ h lo hi); auto.
+    intros t Ht. apply epan_cdf_right; [exact h_pos | exact Ht].
+  Qed.
+  Lemma kde_f_outside lo hi z : pairs_within lo hi (kde_ps k) -> z <= lo - h \/ hi + h <= z -> kde_f k z == 0.
+  Proof.
+    intros Hin [Hz|Hz].
+    - apply (wavg_zero_left _ pok _ h lo hi); auto.
+      intros t Ht. rewrite epan_pdf_outside by (left; exact Ht). reflexivity.
+    - apply (wavg_zero_right _ pok _ h lo hi); auto.
+      intros t Ht. rewrite epan_pdf_outside by (right; exact Ht). reflexivity.
+  Qed.
+End EpanEstimate.
